@@ -225,6 +225,7 @@ def run(s, want=('satisfies', 'intersect', 'difference', 'allows_any', 'allows_a
             versions.append((t, v))
     h = s.harness(L=L, cap_bs=2 ** K + K, caps={'Version': 4})
     h.eng.define_enabled = False
+    h.eng.inline_all = True
     C = Consts(h, strings_of([pr for _, pr in ranges], [v for _, v in versions]))
     M = ConstModel()
     rvals = [C.range_(pr) for _, pr in ranges]
@@ -314,7 +315,7 @@ def run(s, want=('satisfies', 'intersect', 'difference', 'allows_any', 'allows_a
         vt = e.ty('&[Version]')
         if vt.cap >= k:
             sl = Vc(vt, bv(k, 64), vvals[:k] + [None] * (vt.cap - k), k)
-            for i in sorted(okr, key=lambda i: (len(ranges[i][1]), i))[:max(4, max_pairs // 3)]:
+            for i in sorted(okr, key=lambda i: (len(ranges[i][1]), i))[:max_pairs]:
                 r = simp(h.call(f, rvals[i], sl))
                 got = None if M.eval(r.tag).as_long() == 0 else vtext(C.fix(h.dec_version(M, payload(r, 'Some')[0])))
                 x = nat['x%d' % i]
@@ -345,6 +346,6 @@ def rnd_set(rnd_r, nat, texts):
 def validation_group(ops, tier):
     def g(s):
         heavy = any(o in ops for o in ('intersect', 'difference', 'min_version', 'max_satisfying'))
-        q, t = (14, 60) if heavy else (60, 300)
-        run(s, want=tuple(ops), n_random=16 if tier == 'quick' else 40, max_pairs=q if tier == 'quick' else t)
+        q, t = (60, 400) if heavy else (200, 1200)
+        run(s, want=tuple(ops), n_random=24 if tier == 'quick' else 80, max_pairs=q if tier == 'quick' else t)
     return {'name': 'translator-validation', 'fn': g, 'args': {}}
